@@ -170,4 +170,12 @@ def getSenderCurrentTime (d : List Nat) (pkt : AlcPkt) : Out (Option Nat) :=
 def parsePayloadId (d : List Nat) (pkt : AlcPkt) (oti : Oti) : Out PayloadId :=
   getPayloadId oti d pkt.alcHeaderOffset pkt.payloadOffset
 
+/-- `alc::get_fec_inline_payload_id(pkt)`: the codec is chosen by the packet's codepoint; Reed-Solomon GF(2^m)
+    answers `Err("not supported")` -/
+def getFecInlinePayloadId (d : List Nat) (pkt : AlcPkt) : Out PayloadId :=
+  if ¬ knownFec pkt.lct.cp then .err else
+  if pkt.lct.cp = RS2M then .err else
+  getPayloadId { fecId := pkt.lct.cp, inst := 0, maxSbl := 0, esl := 0, parity := 0, ss := .none, inbandFti := true }
+    d pkt.alcHeaderOffset pkt.payloadOffset
+
 end Flute.Alc
